@@ -33,6 +33,10 @@ def registry():
         model_py.register6(_REG, PROPERTIES)
         model_py.register7(_REG, PROPERTIES)
         model_py.register8(_REG, PROPERTIES)
+        from . import util_py
+        util_py.register(_REG, PROPERTIES)
+        from . import paths_py
+        paths_py.register(_REG, PROPERTIES)
         from . import serialize_py
         serialize_py.register(_REG, PROPERTIES)
         from . import registry_py
@@ -40,4 +44,5 @@ def registry():
         from . import properties
         properties.register(_REG, PROPERTIES)
         properties.register2(_REG, PROPERTIES)
+        properties.register3(_REG, PROPERTIES)
     return _REG
